@@ -440,6 +440,11 @@ def c10(ctx):
     outs += stress_jobs(ctx, "race-grow", 4, 2 if q else 30, 120, 800, ("osmmap", "mem", "os", "osmmap"), ["-maint", "-grow"], race=True, workers=3)
     outs += stress_jobs(ctx, "close-vs-held-worker", 4, 6 if q else 60, 10, 3, ALLFS, ["-maint", "-holdbg"], workers=2)
     outs += closerace_jobs(ctx, 4, 6 if q else 60)
+    # error paths: Compact / Sync fail with an injected file-system error at a seeded call; the next call must return
+    # (a lock left behind would hang it: `stuck' event from the watchdog) and the contents must be untouched
+    jobs5, outs5 = fault_jobs(ctx, "seq", 4, 6 if q else 60, 60, 10, ["-failmaint", "-compactheavy"])
+    add_stats(ctx, ctx.vrun_parallel(jobs5), "failed-maintenance")
+    outs += outs5
     races = race_reports(ctx)
     extra = ctx.path("rec-race-events.ndjson")
     with open(extra, "w") as f:
@@ -522,11 +527,11 @@ def c13(ctx):
     for i in range(nsh):
         out = ctx.path("rec-lock-%d.ndjson" % i)
         outs.append(out)
-        jobs.append(["lock", "-n", "500" if q else "0", "-workers", str(nsh), "-shard", str(i), "-keys", "0", "-dir", ctx.path("tmp/lk"),
+        jobs.append(["lock", "-n", "500" if q else "6000", "-workers", str(nsh), "-shard", str(i), "-keys", "0", "-dir", ctx.path("tmp/lk"),
                      "-seed", str(ctx.seed), "-out", out])
     add_stats(ctx, ctx.vrun_parallel(jobs), "lock-schedules")
-    rejs = ctx.validate(outs, module="TraceLock.tla", cfg="TraceLock.cfg", max_rej=60 if q else 5000)
     ctx.sample_from(outs[0], 2)
+    rejs = ctx.validate(outs, module="TraceLock.tla", cfg="TraceLock.cfg", max_rej=60 if q else 400, per_piece=None if q else 400)
     # database level: sequential session chains (clean / unclean ends, competing Open while open)
     outs2 = seq_jobs(ctx, "db-sessions", 4, 4 if q else 30, 60, 8, ALLFS, ["-alt", "-open2"])
     jobs3, outs3 = fault_jobs(ctx, "crash", 4, 4 if q else 30, 20, 6, ["-epochs", "-open2", "-failopen"])
@@ -544,7 +549,7 @@ def c13(ctx):
     ctx.assumptions += ["flock conflicts between separate open file descriptions of one process, so the processes of the model are goroutines parked at the yield hooks between the system calls of fs/os_unix.go and fs/os.go",
                         "a process death is the kernel closing the descriptor (flock released, file left behind)"]
     return ctx.finish("model_checking", "LockProto.tla: every interleaving of stat/open/flock/verify/unlink/close (and deaths) of 3 processes x 2 rounds, exhaustive; pinned protocol refuted. "
-                      "Real code: the enumerated interleavings of the system-call steps of 2-3 openers with a closing or dying holder (5 scenarios; quick: seeded 500 per scenario, thorough: all) executed in-process on a real directory through the yield hooks; "
+                      "Real code: the enumerated interleavings of the system-call steps of 2-3 openers with a closing or dying holder (5 scenarios; quick: a seeded sample of 500 per scenario, thorough: 6000 per scenario - all of them would be 1.5 M schedules) executed in-process on a real directory through the yield hooks; "
                       "each schedule's open/close/die results validated by TLC as a linearizable lock object (TraceLock.tla: at most one owner, unclean => recovered). "
                       "Database level: sequential session chains on all file systems with clean and unclean ends and competing Opens (locked error, directory listing unchanged), validated against Layer A")
 
@@ -604,7 +609,10 @@ def c15(ctx):
         jobs.append(["steady", "-fs", fsn, "-n", "1" if q else "4", "-ops", "36" if q else "200", "-keys", str(30 + 8 * i), "-dir", ctx.path("tmp"),
                      "-seed", str(ctx.seed * 7919 + i), "-out", out])
     add_stats(ctx, ctx.vrun_parallel(jobs), "steady")
-    rejs = ctx.validate(outs + outs2)
+    # the database stays usable after a Compact or Sync that FAILED (injected file-system error at a seeded call)
+    jobs5, outs5 = fault_jobs(ctx, "seq", 4, 6 if q else 60, 60, 10, ["-failmaint", "-compactheavy"])
+    add_stats(ctx, ctx.vrun_parallel(jobs5), "failed-maintenance")
+    rejs = ctx.validate(outs + outs2 + outs5)
     ctx.sample_from(outs[0], 1)
     ctx.report_rejections(rejs, describe_generic)
     h = ctx.cov["harness"]
